@@ -1,13 +1,14 @@
 #!/bin/bash
+# usage: SEEDDIR=/tmp/seedN engine/process_seed_round.sh C01 C02 ...   (confirms each agent worktree $SEEDDIR/<P>, stores the seed, runs its own check)
 cd /verif
 for P in "$@"; do
-  [ -f /tmp/seed9/$P/patch.diff ] || { echo "$P: no patch yet"; continue; }
+  [ -f ${SEEDDIR:-/tmp/seeds}/$P/patch.diff ] || { echo "$P: no patch yet"; continue; }
   last=$(ls seeded | grep "^$P-" | sed "s/$P-//" | sort | tail -1)
   next=$(echo "$last" | tr 'a-y' 'b-z')
   name=$P-$next
-  r=$(bash engine/confirm_seed.sh /tmp/seed9/$P $name 2>&1 | tail -1)
+  r=$(bash engine/confirm_seed.sh ${SEEDDIR:-/tmp/seeds}/$P $name 2>&1 | tail -1)
   if ! echo "$r" | grep -q "CONFIRMED=1"; then
-     r=$(bash engine/confirm_seed.sh /tmp/seed9/$P $name 2>&1 | tail -1)
+     r=$(bash engine/confirm_seed.sh ${SEEDDIR:-/tmp/seeds}/$P $name 2>&1 | tail -1)
   fi
   if echo "$r" | grep -q "CONFIRMED=1"; then
      python3 engine/mkseedmeta.py $name >/dev/null
